@@ -88,4 +88,11 @@ META = {
         'note': PROOF_NOTE + 'maps, ranges, functions, Either/error values only in the direct law oracle; known finding: cross-prototype ints.',
         'technique': 'Lean 4 proof (mutual structural recursion over rose trees, pigeonhole on names, String/Int order lemmas) + exhaustive pair table correspondence + direct law oracle',
     },
+    'C13': {
+        'text': 'Theorems for every start value and every list of steps (arbitrary functions): the wrapped chain holds exactly the outcome of the unwrapped chain (value iff all steps succeed, else the first error), later steps are not '
+                'called after a failure, the nine accessors report that single outcome, abandon re-raises the same error. Tied to the implementation by random chains x accessors with a failure of each kind at each position, and by a '
+                'direct oracle comparing kind and message with the plain chain. Two proxy shapes are known findings (theorem is partial there: property found and callable).',
+        'note': PROOF_NOTE + 'the property-call proxy (native Wrappable._missing) is covered by the correspondence; known findings: non-callable and absent properties through try.',
+        'technique': 'Lean 4 proof (fold/fmap commutation, induction over the step list) + random chain/accessor correspondence + same-run plain-vs-wrapped oracle',
+    },
 }
